@@ -375,11 +375,89 @@ fn slices_case(m: &mut Mon, r: &mut Rng, nl: usize, dl: usize, topbits: usize, r
     let _ = BigUint::one();
 }
 
+// -------------------------------------------------------------------------- bulk reciprocal sweep
+
+/// Is `v` = floor((2^192 - 1) / d) - 2^64 ?  <=>  X*d < 2^192 <= X*d + d  with X = 2^64 + v.
+fn recip2_ok(dv: u128, v: u64) -> bool {
+    let (d1, d0) = ((dv >> 64) as u64, dv as u64);
+    // X*d = (2^64 + v) * d as four 64-bit limbs (little endian), plus overflow detection
+    let p0 = u128::from(v) * u128::from(d0);
+    let p1 = u128::from(v) * u128::from(d1);
+    let l0 = p0 as u64;
+    let t1 = (p0 >> 64) + u128::from(p1 as u64) + u128::from(d0); // + d << 64 contributes d0 here
+    let l1 = t1 as u64;
+    let t2 = (t1 >> 64) + (p1 >> 64) + u128::from(d1);
+    let l2 = t2 as u64;
+    let l3 = (t2 >> 64) as u64;
+    if l3 != 0 {
+        return false; // X*d >= 2^192
+    }
+    // X*d + d >= 2^192 ?
+    let s0 = u128::from(l0) + u128::from(d0);
+    let s1 = u128::from(l1) + u128::from(d1) + (s0 >> 64);
+    let s2 = u128::from(l2) + (s1 >> 64);
+    (s2 >> 64) != 0
+}
+
+/// Low-discrepancy + end-weighted sampling of every row of the reciprocal seed table; only
+/// mismatches go through the monitored path. `per_row` samples per table row for this shard.
+fn recip_sweep(m: &mut Mon, per_row: u64) {
+    let (shard, nshards) = (m.cfg.shard, m.cfg.nshards.max(1));
+    let mut r = m.stream("c14.sweep", shard as usize);
+    let mut n = 0u64;
+    const SPAN: u64 = 1 << 55;
+    for row in 0..256u64 {
+        let first = (256 + row) << 55;
+        // golden-ratio stride, different offset per shard
+        let stride = 0x9e37_79b9_7f4a_7c15u64 % SPAN | 1;
+        let mut off = (r.u64() % SPAN).wrapping_add(shard.wrapping_mul(0x1234_5678_9abc_def1)) % SPAN;
+        for k in 0..per_row {
+            let inrow = match k % 8 {
+                // distance 2^j (+- noise) from either end of the row: where a seed error bites first
+                0 => SPAN - 1 - ((1u64 << (k / 8 % 55)) + (r.u64() >> 44)) % SPAN,
+                1 => ((1u64 << (k / 8 % 55)) + (r.u64() >> 44)) % SPAN,
+                2 => r.u64() % SPAN,
+                _ => {
+                    off = (off + stride) % SPAN;
+                    off
+                }
+            };
+            let dv = first | inrow;
+            let want = (u128::MAX / u128::from(dv)) as u64; // = floor((2^128-1)/d) - 2^64 for d >= 2^63
+            n += 1;
+            if d::reciprocal(dv) != want || d::reciprocal_mg10(dv) != want {
+                m.case_always("reciprocal", 64, vec![Arg::N(u128::from(dv))]);
+            }
+            if k % 4 == 0 {
+                let lo = match k / 4 % 4 {
+                    0 => 0,
+                    1 => u64::MAX,
+                    2 => gen::alpha_limb(&mut r),
+                    _ => r.u64(),
+                };
+                let d2 = (u128::from(dv) << 64) | u128::from(lo);
+                n += 1;
+                if !recip2_ok(d2, d::reciprocal_2(d2)) {
+                    m.case_always("reciprocal_2", 128, vec![Arg::N(d2)]);
+                }
+            }
+        }
+    }
+    m.bump(n, n);
+    m.note_add("reciprocal_sweep_evaluations", n);
+    let _ = nshards;
+}
+
 fn main() {
     let mut m = Mon::new("C14", dispatch);
     m.use_hooks = true;
     if !m.replay_if_requested() {
-        workload(&mut m);
+        if let Some(n) = m.cfg.extra.get("recipsweep").cloned() {
+            let per_row: u64 = n.parse().expect("harness: --recipsweep <samples per row>");
+            recip_sweep(&mut m, per_row);
+        } else {
+            workload(&mut m);
+        }
     }
     m.finish();
 }
